@@ -72,13 +72,19 @@ type builtCall struct {
 	f     func(b []byte) bool
 }
 
-func built(x *mon.Ctx) {
+func built(x *mon.Ctx, tiersOnly bool) {
 	w, err := buildWorld(x.Seed)
 	if err != nil {
 		x.HarnessError("seed artefacts: %v", err)
 	}
 	r := &runner{x: x, gs: newGuards(), st: newSites()}
+	tierFamilies := map[string]bool{"sm9-authenticated-c2-size/raw": true, "sm9-authenticated-c2-size/asn1": true, "sm2-enveloped-key-sizes": true,
+		"pkcs8-pbes2-block-cipher-sizes": true, "pkcs8-pbes2-gcm-parameter-sizes": true, "pkcs7-encrypted-data-sizes": true,
+		"cfca-sm4cbc-lengths": true, "cfca-sm2-blob-key-sizes": true}
 	for _, fam := range families(w) {
+		if tiersOnly && !tierFamilies[fam.name] {
+			continue
+		}
 		for _, p := range fam.params {
 			c := x.Begin("built family=%s param=%s", fam.name, p)
 			if c == nil {
